@@ -235,3 +235,28 @@ def frame_hdr(blk):
     if len(t) < 4: return None
     fr = V.unhex(t[3])
     return dec(fr + bytes(max(0, 36 - len(fr))))
+
+# ------------------------------------------------------------------ scenario families aimed at narrow triggers
+RESIDUE_MTUS = list(range(576, 596)) + [1492, 1493, 1494, 1514]     # every residue of (MTU-34) mod 20 (and most mod 14), PPPoE, jumbo-ish
+def fam_full_lists(s, tag, mtus, extra=(0, 1, 2), twin=False):
+    """a full observation list (capacity, +1, +2) answered by Queries at MTUs of every residue class"""
+    for mtu in mtus:
+        cap = (mtu - 34) // 20
+        for e in extra:
+            s.start('%s_%d_%d%s' % (tag, mtu, e, '~0' if twin else '')); s.lines.append('cfg 0 mtu=%d' % mtu); s.lines.append(gline(icon=bytes(range(251)) * 9))
+            M = mac(1); s.frame(0, discover(M, gen=1))
+            for i in range(cap + e): s.frame(0, probe(mac(100 + i), OWN0, mac(100 + i), OWN0, train=i % 3 == 0))
+            s.frame(0, query(M, OWN0, seq=7)); s.frame(0, query(M, OWN0, seq=8)); s.frame(0, query(M, OWN0, seq=9))
+            s.frame(0, qlt(M, OWN0, 14, 0, seq=10)); s.frame(0, qlt(M, OWN0, 14, mtu - 34, seq=11))
+def fam_mtu_change(s, tag, rng, n):
+    """the MTU shrinks (or the getter starts failing / recovers) in the middle of a session"""
+    for k in range(n):
+        m0, m1 = rng.choice([(1500, 576), (9216, 576), (1500, 590), (2000, 1492), (576, 1500), (1500, 1500)])
+        s.start('%s_%d' % (tag, k)); s.lines.append('cfg 0 mtu=%d' % m0); s.lines.append(gline(icon=bytes(range(256)) * 12, fname=bytes(range(200))))
+        M = mac(1); s.frame(0, discover(M, gen=1))
+        if rng.random() < 0.5: s.frame(0, qlt(M, OWN0, 14, 0, seq=2))
+        for i in range((m1 - 34) // 20 + rng.choice([0, 3, 12])): s.frame(0, probe(mac(100 + i), OWN0, mac(100 + i), OWN0))
+        r = rng.random()
+        s.lines.append('cfg 0 mtu=%d' % m1 + (' mtufail=1' if r < 0.15 else ''))
+        s.frame(0, query(M, OWN0, seq=3)); s.frame(0, qlt(M, OWN0, 14, m0 - 34, seq=4)); s.frame(0, qlt(M, OWN0, 17, 0, seq=5)); s.frame(0, query(M, OWN0, seq=6))
+        s.frame(0, discover(M, gen=1)); s.frame(0, query(M, OWN0, seq=7)); s.frame(0, qlt(M, OWN0, 14, 0, seq=8))
